@@ -39,6 +39,23 @@ def judge_entry(case):
     sensitive = Jo is not None and max(core.relerr(J[i], Jo[i]) for i in (0, 1)) > 1e-3
     y = J[0] / (J[0] + J[1])
     v = []
+    # order of questions: the same object asked with the OTHER model first must still honour the requested model
+    if U.has_model(mix, other):
+        pv_b = U.Pervaporation(membrane=mem, mixture=mix)
+        core.call(pv_b.calculate_partial_fluxes, feed_temperature=t, composition=comp, precision=prec, calculation_type=other, **kw)
+        sb, Jb = core.call(pv_b.calculate_partial_fluxes, feed_temperature=t, composition=comp, precision=prec, calculation_type=model, **kw)
+        if sb != "ok" or not all(core.bit_eq(Jb[i], J[i]) for i in (0, 1)):
+            v.append(core.viol("C08/model_not_honoured/after_other_model", "flux calculation asked for %s right after the same state was asked with %s on the same object returns %r, a fresh object returns %r" % (
+                model, other, Jb if sb != "ok" else (float(Jb[0]), float(Jb[1])), J)))
+        for name, f in (("permeate_composition", pv_b.calculate_permeate_composition), ("separation_factor", pv_b.calculate_separation_factor)):
+            pv_c = U.Pervaporation(membrane=mem, mixture=mix)
+            f_c = getattr(pv_c, f.__name__)
+            s1, r1 = core.call(f_c, feed_temperature=t, composition=comp, precision=prec, calculation_type=other, **kw)
+            s2, r2 = core.call(f_c, feed_temperature=t, composition=comp, precision=prec, calculation_type=model, **kw)
+            s3, r3 = core.call(getattr(U.Pervaporation(membrane=mem, mixture=mix), f.__name__), feed_temperature=t, composition=comp, precision=prec, calculation_type=model, **kw)
+            if s2 == "ok" and s3 == "ok" and not core.bit_eq(float(getattr(r2, "p", r2)), float(getattr(r3, "p", r3))):
+                v.append(core.viol("C08/model_not_honoured/after_other_model/" + name, "%s asked for %s after %s on the same object gives %r, on a fresh object %r" % (
+                    name, model, other, float(getattr(r2, "p", r2)), float(getattr(r3, "p", r3)))))
     # the solver itself must honour the model on BOTH sides of the membrane (cross-comparison of entry points cannot
     # see a slip in shared code): observe the last permeate composition through the seam and recompute the driving force
     if mode != "vac" and mode[0] == "T":
@@ -144,6 +161,16 @@ def judge_trace(case):
         if st != "ok":
             v.append(core.viol("C08/step_vs_standalone/" + setup.kind, "step %d reports fluxes %r but the standalone flux calculation at the reported state raises %r" % (k, tr["J"][k], J)))
             break
+        if setup.kind in traces.IDEAL:
+            # ideal models: the permeance is a function of the membrane and the step's temperature alone, so a standalone
+            # calculation that takes its permeances from the membrane must give the same fluxes
+            kwm = U.permeate_kwargs(setup.mode, setup.t0)
+            stm, Jm = core.call(setup.pv.calculate_partial_fluxes, feed_temperature=tr["T"][k], composition=U.Composition(p=tr["x"][k], type="weight"),
+                                precision=setup.precision, calculation_type=setup.model, **kwm)
+            if stm != "ok" or not (core.bit_eq(Jm[0], tr["J"][k][0]) and core.bit_eq(Jm[1], tr["J"][k][1])):
+                v.append(core.viol("C08/step_vs_membrane/" + setup.kind, "step %d reports fluxes %r (permeances %r), a standalone flux calculation with the membrane's permeances at T=%r gives %r" % (
+                    k, tr["J"][k], tr["P"][k], tr["T"][k], Jm if stm != "ok" else (float(Jm[0]), float(Jm[1])))))
+                break
         if not (core.bit_eq(J[0], tr["J"][k][0]) and core.bit_eq(J[1], tr["J"][k][1])):
             v.append(core.viol("C08/step_vs_standalone/" + setup.kind, "step %d reports fluxes %r, standalone flux calculation at the reported state (T=%r, x=%r, P=%r) gives %r" % (
                 k, tr["J"][k], tr["T"][k], tr["x"][k], tr["P"][k], (float(J[0]), float(J[1])))))
